@@ -1399,7 +1399,29 @@ fn w_c16_c17_stmt() {
             assert!(seen.iter().map(|x| x.1.clone()).collect::<Vec<_>>() == want, "[C17.w.longdata] execution {} of a 10-parameter statement saw {:?}, expected {:?}", k, seen, want);
         }
     }
-    println!("VERIF-NATIVE w_c16_c17_stmt cases=17 nontrivial=17");
+    // a rebind replaces the earlier types COMPLETELY, whatever the new type is: every pair (first type, second type)
+    // out of LONG, NULL, VAR_STRING, TINY -- then a type-less execution uses the second binding
+    {
+        let tys: [(u8, Option<Vec<u8>>, &str); 4] = [(3, Some(5u32.to_le_bytes().to_vec()), "Int(5)"), (6, None, "NULL"), (253, Some(s(b"q")), "Bytes([113])"), (1, Some(vec![7]), "Int(7)")];
+        for a in tys.iter() {
+            for b in tys.iter() {
+                let cmds = vec![(c_prepare(b"p:1:1:0"), 0),
+                    (c_execute(1, &[(a.0, false, a.1.clone())], true), 0),
+                    (c_execute(1, &[(b.0, false, b.1.clone())], true), 0),
+                    (c_execute(1, &[(b.0, false, b.1.clone())], false), 0), quit()];
+                let r = converse(hs41(b"u", 0), &cmds, vec![], false, None, None);
+                assert!(r.result.is_ok() && !r.panicked, "[C16.w.run] rebind {} -> {} failed: {:?}", a.0, b.0, r.result);
+                let ex: Vec<&Ev> = r.log.iter().filter(|e| matches!(e, Ev::Execute(..))).collect();
+                assert!(ex.len() == 3, "[C16.w.run] rebind {} -> {}: {} executions reached the shim", a.0, b.0, ex.len());
+                for (k, want) in [(0usize, a), (1, b), (2, b)] {
+                    if let Ev::Execute(_, seen) = ex[k] {
+                        assert!(seen.len() == 1 && seen[0].0 == want.0 && seen[0].1 == want.2, "[C16.w.rebind] parameter first bound as type {} then as type {}: execution {} decoded as {:?}, expected ({}, {})", a.0, b.0, k, seen, want.0, want.2);
+                    }
+                }
+            }
+        }
+    }
+    println!("VERIF-NATIVE w_c16_c17_stmt cases=33 nontrivial=33");
 }
 
 #[test]
